@@ -79,7 +79,7 @@ OpRotate(st) ==
 FlushOutput(st, w) ==
     LET sv == Latest(st)
         input == SortEntries(UNION {st.mem[sv.sealed[i]] : i \in 1..Len(sv.sealed)})
-    IN CompactionStream(input, w, FALSE, "none").out
+    IN CompactionStream(input, w, FALSE, NoFilter).out
 
 \* key-value separation at flush (BlobTree::flush_to_tables): values whose byte length
 \* reaches the threshold are written to a blob file, the table keeps a pointer ("I").
@@ -131,11 +131,13 @@ OpMergeWith(st, ids, dest, pieces, w) ==
 MergeOutput(st, ids, dest, w, f) ==
     CompactionStream(MergeInput(st, ids), w, dest = LastLevel, f)
 
-OpMerge(st, ids, dest, split, w) ==
-    LET out == MergeOutput(st, ids, dest, w, "none").out
+OpMergeF(st, ids, dest, split, w, f) ==
+    LET out == MergeOutput(st, ids, dest, w, f).out
         pieces == IF out = <<>> THEN <<>>
                   ELSE SplitAt(out, IF split = "all" THEN LegalCuts(out) ELSE {})
     IN OpMergeWith(st, ids, dest, pieces, w)
+
+OpMerge(st, ids, dest, split, w) == OpMergeF(st, ids, dest, split, w, NoFilter)
 
 \* worker::move_tables
 OpMove(st, ids, dest, w) ==
